@@ -61,8 +61,8 @@ reg("vdot", 1, lambda rng, vs: (), lambda vs, p: np.vdot(vs[0], vs[0] + 2), lamb
 reg("moveaxis", 1, lambda rng, vs: (_ax(rng, vs[0]), _ax(rng, vs[0])), lambda vs, p: np.moveaxis(vs[0], p[0], p[1]), lambda da, xs, p: da.moveaxis(xs[0], p[0], p[1]), needs=nd(2))
 reg("swapaxes", 1, lambda rng, vs: (_ax(rng, vs[0]), _ax(rng, vs[0])), lambda vs, p: np.swapaxes(vs[0], p[0], p[1]), lambda da, xs, p: da.swapaxes(xs[0], p[0], p[1]), needs=nd(2))
 reg("rollaxis", 1, lambda rng, vs: (_ax(rng, vs[0]),), lambda vs, p: np.rollaxis(vs[0], p[0]), lambda da, xs, p: da.rollaxis(xs[0], p[0]), needs=nd(2))
-reg("ravel", 1, lambda rng, vs: (), lambda vs, p: np.ravel(vs[0]), lambda da, xs, p: xs[0].ravel(), needs=nd(1))
-reg("flatten_after_T", 1, lambda rng, vs: (), lambda vs, p: vs[0].T.flatten(), lambda da, xs, p: xs[0].T.flatten(), needs=nd(2))
+reg("ravel", 1, lambda rng, vs: (), lambda vs, p: np.ravel(vs[0]), lambda da, xs, p: xs[0].ravel(), needs=lambda vs: vs[0].ndim >= 1 and nonempty(vs) and vs[0].dtype.kind in "iu")
+reg("flatten_after_T", 1, lambda rng, vs: (), lambda vs, p: vs[0].T.flatten(), lambda da, xs, p: xs[0].T.flatten(), needs=lambda vs: vs[0].ndim >= 2 and nonempty(vs) and vs[0].dtype.kind in "iu")
 reg("atleast_3d", 1, lambda rng, vs: (), lambda vs, p: np.atleast_3d(vs[0]), lambda da, xs, p: da.atleast_3d(xs[0]), needs=nd(0))
 reg("rot90", 1, lambda rng, vs: (rng.choice([1, 2, 3]),), lambda vs, p: np.rot90(vs[0], p[0]), lambda da, xs, p: da.rot90(xs[0], p[0]), needs=nd(2))
 reg("fliplr", 1, lambda rng, vs: (), lambda vs, p: np.fliplr(vs[0]), lambda da, xs, p: da.fliplr(xs[0]), needs=nd(2))
@@ -72,7 +72,8 @@ reg("triu", 1, lambda rng, vs: (rng.choice([-1, 0, 1]),), lambda vs, p: np.triu(
 
 
 def _merge_last_two_ok(vs):
-    return vs[0].ndim >= 3 and nonempty(vs) and vs[0].dtype.kind in "iu"
+    # (an all-ones shape keeps its rank: known finding F37)
+    return vs[0].ndim >= 3 and nonempty(vs) and vs[0].size > 1 and vs[0].dtype.kind in "iu"
 
 
 # reshape_blockwise equals NumPy's reshape when the trailing one of the merged axes is a single chunk: the da side makes it so
